@@ -27,6 +27,30 @@ class Result(object):
         return None
 
 
+def _shebang_match(trace, shebang, a):
+    """Answer of the shebang pattern in the modelled run: the scenario says what the first line is (a real match object over that text)."""
+    import re
+    src_ = a[1] if len(a) > 1 else None
+    trace.append(('call', '_find_shebang', (src_,), {}))
+    if shebang is None:
+        return None
+    if isinstance(src_, bytes):
+        return re.match(b'(?s).*', shebang.encode())
+    return re.match('(?s).*', shebang)
+
+
+def package_callables(model):
+    """qualified name -> kind for every function / transformer class of the package outside the driver module itself."""
+    out = {}
+    for q, ci in model.classes.items():
+        if ci.module != PKG and model.method(q, '__call__') is not None:
+            out[q] = ('stage', q)
+    for q, fi in model.funcs.items():
+        if fi.module != PKG and fi.cls is None and fi.outer is None and fi.module.split('.')[0] == PKG and not fi.module.endswith('__main__'):
+            out[q] = ('function', q)
+    return out
+
+
 def imported_callables(model):
     """name in python_minifier/__init__.py -> ('stage'|'function', qualified name) for everything imported from other modules of the package."""
     out = {}
@@ -41,7 +65,7 @@ def imported_callables(model):
     return out
 
 
-def run(model, entry='minify', args=None, kwargs=None, tainted=False, preserved=(), shebang=None, source='SOURCE', parse_raises=None, fresh_modules=False):
+def run(model, entry='minify', args=None, kwargs=None, tainted=False, preserved=(), shebang=None, source='SOURCE', parse_raises=None, fresh_modules=False, real_shebang=False):
     """fresh_modules: every transformer stage (and remove_posargs) answers with a *new* module object, so that a stage that is handed a stale
     tree (result of an earlier stage dropped) is visible in the trace as ('stale', name)."""
     trace = []
@@ -93,8 +117,14 @@ def run(model, entry='minify', args=None, kwargs=None, tainted=False, preserved=
                 return a[0]
             return None
         return fn
-    for name, (kind, q) in imported_callables(model).items():
-        hooks[name] = mk_stage(name) if kind == 'stage' else mk_function(name)
+    # everything the driver module uses from the rest of the package is intercepted by qualified name (whatever import style or alias is used)
+    intercept = {}
+    for name, (kind, q) in package_callables(model).items():
+        short = q.rsplit('.', 1)[1]
+        if kind == 'stage':
+            intercept[q] = (lambda I_, a_, kw_, _c=mk_stage(short): _c(I_, None, a_, kw_, None))
+        else:
+            intercept[q] = (lambda I_, a_, kw_, _f=mk_function(short): _f(I_, None, a_, kw_, None))
     hooks['ast.parse'] = h_parse
 
     def h_unparse(I, e, a, kw, env):
@@ -106,14 +136,17 @@ def run(model, entry='minify', args=None, kwargs=None, tainted=False, preserved=
         trace.append(('call', '_find_shebang', tuple(a), dict(kw)))
         return shebang
     if entry == 'minify':
-        hooks['unparse'] = h_unparse
-        hooks['_find_shebang'] = h_shebang
+        intercept[PKG + '.unparse'] = lambda I_, a_, kw_: h_unparse(I_, None, a_, kw_, None)
+        if not real_shebang:     # otherwise the repository's own pattern is matched against the source by the regular expression engine
+            hooks['re.match'] = lambda I_, e_, a_, kw_, env_: _shebang_match(trace, shebang, a_)
+            hooks['re.search'] = hooks['re.match']
     else:
         def h_minify(I, e, a, kw, env):
             trace.append(('call', 'minify', tuple(a), dict(kw)))
             return 'MINIFIED'
-        hooks['minify'] = h_minify
+        intercept[PKG + '.minify'] = lambda I_, a_, kw_: h_minify(I_, None, a_, kw_, None)
     I = Interp(model, PKG, hooks)
+    I.intercept = intercept
     I.MAX_PATHS = 8
     a = list(args) if args is not None else [source]
     res = I.explore(lambda: I.call_function(PKG + '.' + entry, a, dict(kwargs or {})))
